@@ -5,6 +5,7 @@ package seqhash
 // C04: seqhash is invariant under rotation, strand, case and RNA/DNA spelling.
 //
 // verif:bound C04 rotation clause: sequences over the whole accepted alphabet of the type (both cases), length 1..4 (quick) / 1..6 (thorough), every rotation offset, both strandedness values, all three types; over ACGT additionally length 5..6 (quick) / 5..8 (thorough)
+// verif:bound C04 long-molecule clause: circular DNA of 33001 (quick) / 4099, 33001, 65537, 70001 (thorough) letters with two symbolic letters, rotation offsets 1, n/2, n-3
 // verif:bound C04 strand clause: sequences over the 15 IUPAC codes (plus U under RNA), both cases, length 1..3 (quick) / 1..6 (thorough), circular and linear
 // verif:bound C04 case clause: length 1..3 (quick) / 1..5 (thorough); RNA/DNA clause: length 1..4 (quick) / 1..6 (thorough); all four flag combinations
 // verif:bound C04 outside the claim: longer sequences (the quantifier goes to 10^5)
@@ -110,6 +111,26 @@ func Harness_C04_RnaDna() {
 	vCover("C04 RNA spelling contains U", vNot(vEqStr(s, d)))
 }
 
+// long circular molecules (size thresholds in the rotation search)
+func Harness_C04_LongRotation() {
+	sizes := []int{33001}
+	if vTier(0, 1) == 1 {
+		sizes = []int{4099, 33001, 65537, 70001}
+	}
+	n := sizes[vChoice(len(sizes))]
+	ds := vChoice(2) == 1
+	body := make([]byte, n)
+	for i := range body {
+		body[i] = "CGTGTC"[i%6]
+	}
+	body[n/5] = 'A'
+	s := string(body[:7]) + vBytes(2, "CGTcgt") + string(body[9:])
+	k := []int{1, n / 2, n - 3}[vChoice(3)]
+	h1, e1 := Hash(s, "DNA", true, ds)
+	h2, e2 := Hash(s[k:]+s[:k], "DNA", true, ds)
+	vAssert(e1 == nil && e2 == nil, "accepted")
+	vAssert(vEqStr(h1, h2), "rotation-invariant")
+}
 func Selftest_C04_Pinned() {
 	// the repository's own pinned digests cannot be reproduced by the engine (blake3 is
 	// uninterpreted there); the selftest compares everything but the digest
